@@ -75,3 +75,18 @@ Theorem C16_failed_read_keeps_held : forall ct cd cs cc cm cr,
 Proof. exact failed_read_keeps_held. Qed.
 Print Assumptions C16_failed_read_keeps_held.
 
+
+(* ---- every token tree the parser can return is well-shaped: the hypothesis `forallb line_okb lines` of the
+   theorems above holds for everything read_pil can receive from the grammar (Proofs/PilShape.v) ---- *)
+From DSD Require Import Model.DispatchReader Proofs.PilShape Proofs.PilShapeReader.
+From DSDGen Require Import PilGrammar.
+
+Theorem C16_grammar_shape : forall f text p toks,
+  parse_string_fuel pil_grammar f text = POk p toks -> forallb line_okb toks = true.
+Proof. exact pil_grammar_shape. Qed.
+Print Assumptions C16_grammar_shape.
+
+Theorem C16_parse_lines_eq : forall text, parse_lines text =
+  match parse_string pil_grammar text with POk _ toks => Ok toks | _ => Err eParse end.
+Proof. exact parse_lines_eq. Qed.
+Print Assumptions C16_parse_lines_eq.
